@@ -569,10 +569,16 @@ func (tree *Tree) recursiveRemove(node *Node, key []byte) (newSelf *Node, newKey
 }
 
 func (tree *Tree) Size() int64 {
+	if tree.root == nil {
+		return 0
+	}
 	return tree.root.size
 }
 
 func (tree *Tree) Height() int8 {
+	if tree.root == nil {
+		return 0
+	}
 	return tree.root.subtreeHeight
 }
 
